@@ -35,7 +35,16 @@ def property_loops(F):
             if not p:
                 continue
             src = None
-            for (xb, xs, kind, x) in b.whole_defs(p['l']):
+            l_ = p['l']
+            for _ in range(8):
+                # the identifier may reach the `match` through plain copies (handed to a spliced helper / closure as an argument)
+                ds_ = uniq_defs(b, l_)
+                if len(ds_) == 1 and ds_[0][2] == 'assign' and ds_[0][3]['rv']['k'] == 'use' and op_place(ds_[0][3]['rv']['op']) is not None \
+                        and not place_proj(op_place(ds_[0][3]['rv']['op'])) and not place_proj(p):
+                    l_ = op_place(ds_[0][3]['rv']['op'])['l']
+                else:
+                    break
+            for (xb, xs, kind, x) in b.whole_defs(l_):
                 if kind == 'call' and re.search(r'::get_u8$', callee_name(x) or ''):
                     src = (xb, x)
             if src is None:
